@@ -4,6 +4,7 @@ import Martian.Props.C15.Isolation
 import Martian.Props.C15.Flags
 import Martian.Props.C15.Facts
 import Martian.Props.C15.Faults
+import Martian.Props.C15.Errors
 /-!
 C15 — Logging and snapshotting never change the message that is forwarded.
 Only property theorems and non-vacuity examples live here.
